@@ -8,11 +8,13 @@ import Driver.OpsRunner
 import Driver.OpsFormat
 import Driver.OpsStdlib
 import Driver.OpsLines
+import Driver.OpsIsolation
+import Driver.OpsCapture
 open Xdoc.Driver
 
 def opTables : List (List String → Option String) :=
   [opsChecker, opsDirective, opsExample, opsParser, opsImport, opsStatic, opsRunner, opsFormat,
-   opsStdlib, opsLines]
+   opsStdlib, opsLines, opsIsolation, opsCapture]
 
 def dispatch (fields : List String) : String :=
   match opTables.findSome? (fun t => t fields) with
